@@ -4,6 +4,7 @@ import (
 	"context"
 	"io"
 
+	"github.com/golang/protobuf/proto" //nolint:staticcheck // P4Runtime stubs are APIv1 messages
 	"github.com/omec-project/upf-epc/zzverif/vsim"
 	p4 "github.com/p4lang/p4runtime/go/p4/v1"
 	spb "google.golang.org/genproto/googleapis/rpc/status"
@@ -11,7 +12,6 @@ import (
 	"google.golang.org/grpc/codes"
 	"google.golang.org/grpc/metadata"
 	"google.golang.org/grpc/status"
-	"github.com/golang/protobuf/proto" //nolint:staticcheck // P4Runtime stubs are APIv1 messages
 )
 
 // Task-side P4Runtime client: requests are marshalled, handed to the simulated
